@@ -312,17 +312,68 @@ def coarse_spread(mjm, st, seed, eps=3e-6, probes=2):
 
 def contact_list_mj(mjd):
   c = mjd.contact
-  rows = sorted((int(c.geom[i][0]), int(c.geom[i][1]), int(c.dim[i]), tuple(np.round(c.pos[i], 3))) for i in range(mjd.ncon))
-  return [r[:3] for r in rows], np.array([r[3] for r in rows]).reshape(-1, 3)
+  rows = sorted((int(c.geom[i][0]), int(c.geom[i][1]), int(c.dim[i]), tuple(np.round(c.pos[i], 3)), i) for i in range(mjd.ncon))
+  idx = [r[4] for r in rows]
+  return [r[:3] for r in rows], np.array([c.pos[i] for i in idx]).reshape(-1, 3), np.array([c.frame[i] for i in idx]).reshape(-1, 9)
 
 
 def contact_list_mjw(d, w):
   c = mw.contacts(d, w)
-  rows = sorted((int(g[0]), int(g[1]), int(dm), tuple(np.round(p, 3))) for g, dm, p in zip(c["geom"], c["dim"], c["pos"]))
-  return [r[:3] for r in rows], np.array([r[3] for r in rows]).reshape(-1, 3)
+  n = len(c["dist"])
+  # contacts that exist only for geom-distance sensors (ContactType.SENSOR without CONSTRAINT) are not constraint contacts
+  rows = sorted((int(c["geom"][i][0]), int(c["geom"][i][1]), int(c["dim"][i]), tuple(np.round(c["pos"][i], 3)), i) for i in range(n) if int(c["type"][i]) & 1)
+  idx = [r[4] for r in rows]
+  return [r[:3] for r in rows], np.array([c["pos"][i] for i in idx]).reshape(-1, 3), np.array([np.asarray(c["frame"][i]).reshape(-1) for i in idx]).reshape(-1, 9)
 
 
 # --------------------------------------------------------------------------------------- per-sensor verdict
+
+
+STATIC_SKEW = {int(S.mjSENS_ACCELEROMETER), int(S.mjSENS_FRAMELINACC), int(S.mjSENS_FRAMEANGACC)}
+
+
+def obj_body_static(mjm, i):
+  ot, oid = int(mjm.sensor_objtype[i]), int(mjm.sensor_objid[i])
+  if ot in (int(mujoco.mjtObj.mjOBJ_BODY), int(mujoco.mjtObj.mjOBJ_XBODY)):
+    b = oid
+  elif ot == int(mujoco.mjtObj.mjOBJ_GEOM):
+    b = mjm.geom_bodyid[oid]
+  elif ot == int(mujoco.mjtObj.mjOBJ_SITE):
+    b = mjm.site_bodyid[oid]
+  elif ot == int(mujoco.mjtObj.mjOBJ_CAMERA):
+    b = mjm.cam_bodyid[oid]
+  else:
+    return False
+  b = int(b)
+  while b > 0:
+    if mjm.body_dofnum[b] > 0:
+      return False
+    b = int(mjm.body_parentid[b])
+  return True
+
+
+LIMIT_ROWS = {int(x) for x in (S.mjSENS_JOINTLIMITPOS, S.mjSENS_JOINTLIMITVEL, S.mjSENS_JOINTLIMITFRC, S.mjSENS_TENDONLIMITPOS, S.mjSENS_TENDONLIMITVEL, S.mjSENS_TENDONLIMITFRC)}
+JOINT_LIMIT = {int(x) for x in (S.mjSENS_JOINTLIMITPOS, S.mjSENS_JOINTLIMITVEL, S.mjSENS_JOINTLIMITFRC)}
+
+
+def limit_cross_type_row(mjm, mjd, i):
+  """True if MuJoCo's row list holds a limit row of the *other* kind (tendon vs joint) with the sensor's object id."""
+  t = int(mjm.sensor_type[i])
+  other = int(mujoco.mjtConstraint.mjCNSTR_LIMIT_TENDON) if t in JOINT_LIMIT else int(mujoco.mjtConstraint.mjCNSTR_LIMIT_JOINT)
+  oid = int(mjm.sensor_objid[i])
+  return any(int(mjd.efc_type[k]) == other and int(mjd.efc_id[k]) == oid for k in range(mjd.nefc))
+
+
+def distfam_has_capsule_pair(mjm, i):
+  def geoms(tp, oid):
+    if tp == int(mujoco.mjtObj.mjOBJ_BODY):
+      return range(mjm.body_geomadr[oid], mjm.body_geomadr[oid] + mjm.body_geomnum[oid])
+    return [oid]
+
+  cap = int(mujoco.mjtGeom.mjGEOM_CAPSULE)
+  g1 = geoms(int(mjm.sensor_objtype[i]), int(mjm.sensor_objid[i]))
+  g2 = geoms(int(mjm.sensor_reftype[i]), int(mjm.sensor_refid[i]))
+  return any(int(mjm.geom_type[a]) == cap for a in g1) and any(int(mjm.geom_type[b]) == cap for b in g2)
 
 
 def contact_layout(mjm, i):
@@ -345,13 +396,23 @@ def match_rows(ref_rows, got_rows):
   return np.array(out)
 
 
-def judge_sensor(rec, mjm, i, got, ref, noise, coarse, gated, constrained, sib, ctx):
+def judge_sensor(rec, mjm, i, got, ref, noise, coarse, gated, struct_ok, constrained, sib, mjd, ctx):
   """Verdict for sensor i. got/ref/noise/coarse: full sensordata-sized arrays."""
   t = int(mjm.sensor_type[i])
   name = ST.get(t, str(t))
   a, n = int(mjm.sensor_adr[i]), int(mjm.sensor_dim[i])
   g, r, nz, cz = got[a : a + n].astype(np.float64), ref[a : a + n], noise[a : a + n], coarse[a : a + n]
   stage = int(mjm.sensor_needstage[i])
+  if t in STATIC_SKEW and not np.any(r != 0) and obj_body_static(mjm, i):
+    # MuJoCo 3.13 reports exactly 0 for acceleration sensors attached to static bodies (world, welded, mocap) although
+    # cacc of those bodies is -gravity; classic MuJoCo semantics (and MJWarp) give -g in the sensor frame: not judged
+    rec.count("skew_static_body_acc_sensor_not_judged")
+    return "skew"
+  contact_off = bool(mjm.opt.disableflags & mujoco.mjtDisableBit.mjDSBL_CONTACT)
+  if t in LIMIT_ROWS and not struct_ok:
+    rec.count("sensor_ungated")
+    rec.count("ungated:" + name)
+    return "ungated"
   if t in SOLVER_DEP:
     if not gated:
       rec.count("sensor_ungated")
@@ -367,12 +428,26 @@ def judge_sensor(rec, mjm, i, got, ref, noise, coarse, gated, constrained, sib, 
   else:
     allow = A_ACC_FREE
   sc = max(1.0, float(np.abs(r).max())) if n else 1.0
+  if constrained and t in SOLVER_DEP and t != int(S.mjSENS_TACTILE):  # tactile is geometric (penetration), no force scale
+    # solver precision is relative to the largest constraint force / acceleration of the world, not to this sensor's value
+    if t in STATIC_SKEW:
+      sc = max(sc, float(np.abs(mjd.qacc).max()) if mjd.qacc.size else 0.0)
+    else:
+      sc = max(sc, float(np.abs(mjd.efc_force).max()) if mjd.nefc else 0.0)
   if t in DISCONT and n and float(cz.max()) > cmp.VIOL_FACTOR * allow * sc:
     rec.count("near_discontinuity:" + name)
     rec.inconcl(f"{name}: reference jumps under a 3e-6 perturbation")
     return "incon"
   rec.count("judged:" + name)
   sig = "sensor:" + name
+  if t in DISTFAM and contact_off:
+    sig += ":contact-disabled"  # MuJoCo's mj_geomDistance does not depend on the CONTACT flag
+  elif t == int(S.mjSENS_TOUCH) and mjm.sensor_cutoff[i] > 0 and r[0] == mjm.sensor_cutoff[i] and g[0] > r[0]:
+    sig = "sensor:touch:cutoff-not-applied"
+  elif t in LIMIT_ROWS and limit_cross_type_row(mjm, mjd, i):
+    sig = "sensor:limit-sensor-reads-other-constraint-type"  # own mechanism: efc_id matched without checking joint vs tendon
+  elif t in DISTFAM and distfam_has_capsule_pair(mjm, i):
+    sig += ":capsule-capsule"  # own mechanism: capsule_capsule() drops distances beyond the contact margin
   if t in QUAT:
     if np.abs(g + r).max() < np.abs(g - r).max():
       g = -g
@@ -445,8 +520,8 @@ def build(case, rec):
     if mjm is None:
       rec.rejected = "mujoco compile"
       return None
-    if kind == "free":
-      mjm.opt.disableflags |= mujoco.mjtDisableBit.mjDSBL_CONTACT
+    if kind == "free" and v == 8:
+      mjm.opt.disableflags |= mujoco.mjtDisableBit.mjDSBL_CONTACT  # geoms have contype=conaffinity=0 anyway
     return xml, mjm, set(feats)
   if kind == "scene":
     xml, feats = contact_scene(case["seed"])
@@ -487,15 +562,21 @@ def run_case(case):
     for _ in range(nworld):
       st = gen.sample_state(mjm, rng, vel=0.1, quat_scale=False, applied=False)
       q = np.array(mjm.qpos0)
-      q[2] += rng.choice([-0.02, -0.005, 0.0, 0.05])
       qq = np.array([1, 0, 0, 0]) + rng.normal(size=4) * 0.1
       q[3:7] = qq / np.linalg.norm(qq)
+      # put the lowest mesh vertex (after rotation) at the box top (z=0.3) plus an offset
+      R = np.zeros(9)
+      mujoco.mju_quat2Mat(R, q[3:7])
+      gq = np.zeros(9)
+      mujoco.mju_quat2Mat(gq, mjm.geom_quat[0])
+      vz = (R.reshape(3, 3) @ (gq.reshape(3, 3) @ mjm.mesh_vert.T + mjm.geom_pos[0][:, None]))[2]
+      q[2] = 0.3 - vz.min() + rng.choice([-0.03, -0.01, -0.003, 0.05])
       st["qpos"] = q.astype(np.float32)
       states.append(st)
     d = mw.make_data(mjm, m, states, nconmax=48, njmax=256)
   else:
     states = [gen.sample_state(mjm, rng, vel=rng.choice([0.3, 2.0])) for _ in range(nworld)]
-    d = mw.make_data(mjm, m, states)
+    d = mw.make_data(mjm, m, states, njmax=96, njmax_nnz=96 * mjm.nv) if kind == "con" else mw.make_data(mjm, m, states)
   d.sensordata.fill_(7.0e7)
   d.energy.fill_(7.0e7)
   if case["entry"] == "fwd":
@@ -549,10 +630,20 @@ def run_case(case):
     elif ovf[w]:
       gated, why = False, "overflow flag"
     elif rs[4] > 0 or kind in ("scene", "tactile"):
-      cl, cp = contact_list_mj(mjd)
-      gl, gp = contact_list_mjw(d, w)
+      cl, cp, cf = contact_list_mj(mjd)
+      gl, gp, gf = contact_list_mjw(d, w)
       if cl != gl or (len(cl) and np.abs(cp - gp).max() > 2e-3):
         gated, why = False, "contact lists differ"
+      elif len(cl) and np.abs(cf - gf).max() > 1e-3:
+        gated, why = False, "contact frames differ"
+    if gated and rs[0] > 0:
+      n = int(rs[0])
+      ncrow = int(np.sum(mjd.efc_type[:n] < int(mujoco.mjtConstraint.mjCNSTR_CONTACT_FRICTIONLESS)))  # rows that are not contact rows
+      a = sorted(zip(mw.npy(d.efc.type)[w][:n].tolist(), mw.npy(d.efc.id)[w][:n].tolist()))
+      b = sorted(zip(mjd.efc_type[:n].tolist(), mjd.efc_id[:n].tolist()))
+      if [x[0] for x in a] != [x[0] for x in b] or sorted(x for x in a if x[0] < 5) != sorted(x for x in b if x[0] < 5):
+        gated, why = False, "constraint row types/ids differ"
+    struct_ok = gated or why == "iteration limit reached"
     rec.count("worlds")
     if constrained:
       rec.count("worlds_constrained")
@@ -586,7 +677,7 @@ def run_case(case):
         sibs[names[i][:-4]] = sibling_info(mjm, i, ref["sensordata"])
     for i in range(mjm.nsensor):
       t = int(mjm.sensor_type[i])
-      res = judge_sensor(rec, mjm, i, got_sd[w], ref["sensordata"], noise["sensordata"], coarse, gated, constrained, sibs.get(names[i]), ctx + f" sensor {i} ({names[i]})")
+      res = judge_sensor(rec, mjm, i, got_sd[w], ref["sensordata"], noise["sensordata"], coarse, gated, struct_ok, constrained, sibs.get(names[i]), mjd, ctx + f" sensor {i} ({names[i]})")
       a, n = int(mjm.sensor_adr[i]), int(mjm.sensor_dim[i])
       r = ref["sensordata"][a : a + n]
       if res == "ok":
@@ -648,8 +739,8 @@ def requirements(agg, tier):
       unmet.append(f"sensor type never compared with a non-zero reference: {t}")
   trip = set(cov.get("triples_ok_nonzero", []))
   for ot in ("body", "xbody", "geom", "site", "camera"):
-    if not any(x.startswith("framepos/" + ot + "/") for x in trip):
-      unmet.append(f"framepos objtype never seen: {ot}")
+    if not any(x.split("/")[1] == ot for x in trip if x.startswith("frame")):
+      unmet.append(f"frame sensor objtype never seen: {ot}")
     if not any(x.split("/")[2] == ot for x in trip if x.startswith("frame")):
       unmet.append(f"frame sensor reftype never seen: {ot}")
   if len(trip) < 60:
@@ -660,6 +751,8 @@ def requirements(agg, tier):
   for r in ("none", "mindist", "maxforce", "netforce"):
     if r not in cov.get("contact_reduce_nonzero", []):
       unmet.append(f"contact sensor reduce mode never compared: {r}")
+  if "tactile" not in have:
+    unmet.append("tactile sensor never compared with a non-zero reference")
   for s in SITE_SHAPES:
     if s not in cov.get("touch_site_shape_nonzero", []):
       unmet.append(f"touch sensor with site shape never compared non-zero: {s}")
